@@ -35,7 +35,9 @@ static u64 tagv(u64 i) { return mix(0x5500000000ULL + i) | 1; }
 
 struct Cnt { long long cases = 0, evals = 0, nontriv = 0; std::set<std::pair<u64, u64>> parts; };
 
-static std::string casestr(int fn, u64 size, int nt) { return fmt("fn=%s size=%llu nt=%d", fn == 0 ? "parcpy" : "parSetZero", (unsigned long long)size, nt); }
+// fn: 0 parcpy, 1 parSetZero; +2 = called from inside another parallel region (the runtime then grants the inner
+// region a team of ONE thread although more were requested: num_threads is an upper bound, not a promise)
+static std::string casestr(int fn, u64 size, int nt) { return fmt("fn=%s size=%llu nt=%d env=%s", (fn & 1) == 0 ? "parcpy" : "parSetZero", (unsigned long long)size, nt, fn >= 2 ? "nested" : "top"); }
 
 // "" = pass, else "<kind>\t<detail>"
 static std::string run_case(int fn, u64 size, int nt, Cnt *cnt)
@@ -63,8 +65,22 @@ static std::string run_case(int fn, u64 size, int nt, Cnt *cnt)
         for (u64 i = 0; i < size; i++) { src[i] = tagv(g + i); dst[i] = sent(g + i); }
     std::vector<u64> srccopy(src - g, src + size + g);
 
-    if (fn == 0) Goldilocks::parcpy((Goldilocks::Element *)dst, (const Goldilocks::Element *)src, size, nt);
-    else Goldilocks::parSetZero((Goldilocks::Element *)dst, size, nt);
+    auto call = [&]() {
+        if ((fn & 1) == 0) Goldilocks::parcpy((Goldilocks::Element *)dst, (const Goldilocks::Element *)src, size, nt);
+        else Goldilocks::parSetZero((Goldilocks::Element *)dst, size, nt);
+    };
+    if (fn >= 2)
+    {
+#pragma omp parallel num_threads(2)
+        {
+#pragma omp single
+            call();
+        }
+    }
+    else call();
+    const int fn_env = fn;
+    fn &= 1;
+    (void)fn_env;
 
     for (u64 i = 0; i < size && fail.empty(); i++)
     {
@@ -150,7 +166,7 @@ static void report_abnormal(const Iso &r, const std::string &cur)
 static void emit(int fn, u64 size, int nt, const std::string &f)
 {
     size_t t = f.find('\t');
-    rep().viol("C17." + f.substr(0, t) + "." + (fn == 0 ? "parcpy" : "parSetZero"), casestr(fn, size, nt), std::string("goldilocks_base_field.cpp ") + (fn == 0 ? "parcpy: " : "parSetZero: ") + f.substr(t + 1));
+    rep().viol("C17." + f.substr(0, t) + "." + ((fn & 1) == 0 ? "parcpy" : "parSetZero") + (fn >= 2 ? ".nested" : ""), casestr(fn, size, nt), std::string("goldilocks_base_field.cpp ") + ((fn & 1) == 0 ? "parcpy: " : "parSetZero: ") + f.substr(t + 1));
 }
 
 int main(int argc, char **argv)
@@ -159,7 +175,7 @@ int main(int argc, char **argv)
     if (!args.one.empty())
     {
         auto m = parse_case(args.one);
-        int fn = cs(m, "fn") == "parSetZero" ? 1 : 0;
+        int fn = (cs(m, "fn") == "parSetZero" ? 1 : 0) + (cs(m, "env") == "nested" ? 2 : 0);
         u64 size = cu(m, "size", 0);
         int nt = (int)strtol(cs(m, "nt", "1").c_str(), 0, 0);
         std::string cur = casestr(fn, size, nt);
@@ -184,7 +200,7 @@ int main(int argc, char **argv)
         std::vector<int> nts = {INT_MIN, -1, 0, 1, 2, 3, 7, 64, (int)size, (int)size + 1};
         std::sort(nts.begin(), nts.end());
         nts.erase(std::unique(nts.begin(), nts.end()), nts.end());
-        for (int fn = 0; fn < 2; fn++)
+        for (int fn = 0; fn < 4; fn++)
             for (int nt : nts) todo.push_back({fn, nt});
         size_t at = 0;
         while (at < todo.size())
